@@ -217,6 +217,7 @@ func (fc *FnCtx) builtinExtern(st *State, callee *types.Func, recv *Val, args []
 		}
 		fc.checkBlocking(st, mi, call)
 		fc.heldSet(st, addr, mode)
+		fc.bumpCounter(st, "$lockcalls")
 		fc.acquire(st, mi)
 		if fc.contract != nil && len(fc.contract.AtLock) > 0 && fc.inlineOld == nil && mi != nil && mi.mon != nil {
 			env := fc.newSpecEnv(st, fc.oldState(), fc.decl.Body.Rbrace)
@@ -310,7 +311,14 @@ func copySnap(m map[string]*State) map[string]*State {
 	return n
 }
 
+// bumpCounter: event counters of mutex operations (spec builtins lockcalls() / unlockcalls()): how many Lock/RLock
+// resp. Unlock/RUnlock calls the function has executed, whatever mutex they were on.
+func (fc *FnCtx) bumpCounter(st *State, key string) {
+	fc.heapSet(st, key, "Int", app("+", fc.heapGet(st, key, "Int"), "1"))
+}
+
 func (fc *FnCtx) doUnlock(st *State, full, addr string, mi *monInfo, pos token.Pos) []Val {
+	fc.bumpCounter(st, "$unlockcalls")
 	want := "1"
 	if strings.HasSuffix(full, "RUnlock") {
 		want = "2"
